@@ -48,9 +48,15 @@ Qed.
 
 Lemma add_m_mod md a b r : add_m md U32 a b = Some r -> r = (a + b) mod 2 ^ 32.
 Proof.
-  unfold add_m, U32. destruct (N.ltb_spec (a + b) (2 ^ 32)).
+  unfold add_m, add_c, U32. destruct (N.ltb_spec (a + b) (2 ^ 32)).
   - intros E; inversion E; subst. symmetry. now apply N.mod_small.
   - destruct md; [discriminate|]. intros E; inversion E; reflexivity.
+Qed.
+
+Lemma add_c_mod a b r : add_c U32 a b = Some r -> r = (a + b) mod 2 ^ 32.
+Proof.
+  unfold add_c, U32. destruct (N.ltb_spec (a + b) (2 ^ 32)); [|discriminate].
+  intros E; inversion E; subst. symmetry. now apply N.mod_small.
 Qed.
 
 (* ---------- resources and controllers: stored length = serialised size ---------- *)
@@ -164,11 +170,11 @@ Qed.
 Lemma rqsc_add_inv md s q s' : RInv s -> QInv q -> rqsc_add md s q = Some s' -> RInv s'.
 Proof.
   intros [Hh Hlen Hck Hq] Iq. unfold rqsc_add.
-  destruct (add_m md U32 (cast U32 (q_length q)) (r_len s)) as [nl|] eqn:En; [|discriminate]. cbn [option_bind].
+  destruct (add_c U32 (cast U32 (q_length q)) (r_len s)) as [nl|] eqn:En; [|discriminate]. cbn [option_bind].
   intros H; inversion H; subst; clear H.
   constructor; cbn [r_hdr r_len r_hck r_rcs].
   - exact Hh.
-  - apply add_m_mod in En. rewrite En. unfold cast, U32.
+  - apply add_c_mod in En. rewrite En. unfold cast, U32.
     destruct Iq as (Hg & Hl & Hlt).
     rewrite (N.mod_small (q_length q)) by (change (2 ^ 16) with 65536 in Hlt; change (2 ^ 32) with 4294967296; lia).
     unfold rqsc_image in *. cbn [r_hdr r_len r_hck r_rcs].
